@@ -33,6 +33,9 @@ def identsPresent (ids : Ids) (tokens : List Token) : Bool :=
        | some (.ident id) => (lookupId ids id).isSome
        | _ => true))
 
+/-- The reserved key of the detection block. -/
+def condKey : Str := "condition".toList
+
 /-- Accumulator of the visitor loop. -/
 structure LoadSt where
   ids : Ids := []
@@ -43,7 +46,7 @@ structure LoadSt where
 def loadEntries (E : RegexEngine) (ic : Bool) : List (Str × Yaml) → LoadSt → Except Err LoadSt
   | [], st => .ok st
   | (key, v) :: rest, st =>
-    if key == "condition".toList then
+    if key == condKey then
       if st.cond.isSome then .error (.rule "duplicate") else
       match v with
       | .str s => loadEntries E ic rest { st with cond := some s }
@@ -156,7 +159,7 @@ def Rule.validateOk (E : RegexEngine) (r : Rule) : Bool :=
     order `ord` of the identifiers (the raw map is a `HashMap`). -/
 def Rule.serialise (r : Rule) (ord : List (Str × Yaml)) : RuleSrc :=
   { optimised := r.optimised
-    det := ("condition".toList, .str r.det.condRaw) :: ord
+    det := (condKey, .str r.det.condRaw) :: ord
     tps := r.tps, tns := r.tns }
 
 end Tau
